@@ -431,6 +431,11 @@ def run_supercell(ctx):
     ident = dict(P=bad_snf["P"], Q=bad_snf["P"], D=bad_snf["P"])
     for e in events:
         e["snf"] = table.get(tuple(map(tuple, e["smat"])), ident)
+    import copy
+    bad = copy.deepcopy(next(e for e in events if e["res"].get("status") == "built" and len(e["res"]["atoms"]) >= 2))
+    bad["res"]["atoms"][1]["u"] = bad["res"]["atoms"][0]["u"]      # two atoms on the same site
+    ctx.binding_demo("duplicated supercell atom", "MC_SupercellTrace", CFG_TRACE, MC_TEMPLATE % to_tla(bad),
+                     "ImplRequirementNoDup")
     mc = MC_TEMPLATE % ",\n".join(to_tla(e) for e in events)
     res = ctx.tlc("MC_SupercellTrace", cfg_text=CFG_TRACE, extra_files={"MC_SupercellTrace.tla": mc},
                   requirement=False, extra_args=("-continue",), keep=True)
